@@ -994,18 +994,23 @@ func handleState(fr *FrameHeader, strm *Stream) {
 		strm.SetState(StreamStateClosed)
 	}
 
+	// END_STREAM is only defined for HEADERS and DATA. On every other frame type
+	// bit 0x1 is either undefined, and must be ignored, or means something else.
+	endStream := (fr.Type() == FrameHeaders || fr.Type() == FrameData) &&
+		fr.Flags().Has(FlagEndStream)
+
 	switch strm.State() {
 	case StreamStateIdle:
 		if fr.Type() == FrameHeaders {
 			strm.SetState(StreamStateOpen)
-			if fr.Flags().Has(FlagEndStream) {
+			if endStream {
 				strm.SetState(StreamStateHalfClosed)
 			}
 		} // TODO: else push promise ...
 	case StreamStateReserved:
 		// TODO: ...
 	case StreamStateOpen:
-		if fr.Flags().Has(FlagEndStream) {
+		if endStream {
 			strm.SetState(StreamStateHalfClosed)
 		} else if fr.Type() == FrameResetStream {
 			strm.SetState(StreamStateClosed)
